@@ -45,6 +45,10 @@ class R4:
 
 RT = (R0, R1, R2, R3, R4)
 
+import types as _types  # noqa: E402
+
+REFS = _types.SimpleNamespace()  # classes reachable as "harness.ctree:REFS.c<idx>"
+
 # all rooted tree shapes as parent vectors (node 0 is the root; parent[i] < i)
 def shapes(n: int) -> list:
     out = [[]]
@@ -63,6 +67,7 @@ class NodeSpec:
     inherit: bool = False  # methods defined on an intermediate base class
     alias: str = ""
     kwargs: dict = field(default_factory=dict)
+    by_ref: bool = False  # declared to its parent by a "module:attr" string instead of the class object
 
 
 class Env:
@@ -173,10 +178,22 @@ async def run_steps(env: Env, node: NodeSpec, phase: str, steps: list):
                 await anyio.sleep_forever()
         elif k == "giveup":
             # ("giveup", type, name): an optional dependency that is given up at once (cancelled while waiting)
-            _, t, name = st
-            with anyio.move_on_after(0) as scope:
+            _, t, name = st[:3]
+            with anyio.move_on_after(st[3] if len(st) > 3 else 0) as scope:
                 await get_resource(t, name)
             env.ev("gave_up", node.idx, scope.cancelled_caught)
+        elif k == "subctx":
+            # ("subctx", label, type, name): open a Context() of our own and look the resource up in it
+            _, label, t, name = st
+            from asphalt.core import Context
+
+            async with Context() as sub:
+                env.values[(node.idx, label + ":parent")] = sub.parent
+                try:
+                    env.values[(node.idx, label)] = sub.get_resource_nowait(t, name)
+                except Exception as e:
+                    env.values[(node.idx, label)] = e
+            env.ev("subctx", node.idx, label)
         elif k == "opt":
             _, label, t, name = st
             steps_before = None
@@ -219,7 +236,8 @@ def build_classes(env: Env, nodes: list) -> list:
             if _node.init_raises is not None:
                 raise _node.init_raises
             for c in kids[_node.idx]:
-                self.add_component(c.alias or f"n{c.idx}", classes[c.idx], **c.kwargs)
+                tp = f"harness.ctree:REFS.c{c.idx}" if c.by_ref else classes[c.idx]
+                self.add_component(c.alias or f"n{c.idx}", tp, **c.kwargs)
 
         methods: dict[str, Any] = {}
         if node.prepare is not None:
@@ -252,6 +270,7 @@ def build_classes(env: Env, nodes: list) -> list:
         else:
             cls = type(f"Comp{node.idx}", (Component,), {"__init__": __init__, **methods})
         classes[node.idx] = cls
+        setattr(REFS, f"c{node.idx}", cls)
     return classes
 
 
